@@ -31,6 +31,8 @@ def run(prog, chk):
     from props import C11
     C11.shape_pipeline(prog, chk)  # surround/inside/margin are consumed only in the shape pipeline
     all_boxes_combined(prog, chk)
+    from props import strops
+    strops.check_for(prog, chk, "C12")  # A14.str-ops: how this property's strings are cut up is a reviewed, frozen inventory
 
 
 def _lit(body, t, i):
